@@ -17,86 +17,31 @@ LOG_OK = (
     "len(cd) == len(cf) and len(cs) == len(cf)"
     f" and all({IN('cf[i]', 'hash_formats_to_generate')} for i in range(len(cf)))"
     " and all(cd[i] == current_hash_lookup[cf[i]] for i in range(len(cf)))"
-    f" and all(is_digest_text(cd[i], cf[i], {BYTES}) for i in range(len(cf)))"
 )
-DIGESTS_OK = f"all(is_digest_text(current_hash_lookup[k], k, {BYTES}) for k in current_hash_lookup.keys())"
+DIGESTS_OK = f"all(digest_ok(current_hash_lookup[k], k, {BYTES}) for k in current_hash_lookup.keys())"
 GEN_KEYS = (
     "all(hash_formats_to_generate[j] in current_hash_lookup for j in range(len(hash_formats_to_generate)))"
 )
 
-contract(
-    "ascmhl.commands.seal_file_path",
-    slices=16,
-    bounded="478 of 498 obligations discharge (all postconditions except the last one, all of loops 0-1, most of loops 2-3); the "
-    "preservation of the nested-quantifier ordering invariant of the second judging loop and of the result-dict invariants stays "
-    "`unknown` in z3 and cvc5 (the same obligations discharge in under a second on the shorter paths) - the ordering of judgements is "
-    "checked by the C04 small-world driver on all format-subset sequences instead",
-    params={"existing_history": "MHLHistory", "file_path": "str", "hash_formats": "list[str]", "session": "MHLGenerationCreationSession"},
-    returns="dict[str,tuple[str,bool]]",
-    locals={"hash_formats_to_generate": "list[str]", "hash_result_lookup": "dict[str,tuple[str,bool]]", "existing_hash_formats": "list[str]",
-            "current_hash_lookup": "dict[str,str]"},
-    exposes={"existing_hash_formats": "list[str]", "hash_formats_to_generate": "list[str]"},
-    ghost_init={"cf": ("list[str]", "empty_strs()"), "cd": ("list[str]", "empty_strs()"), "cs": ("list[bool]", "empty_bools()")},
-    ghost_updates={"success &= session.append_file_hash(": [("cf", "append(cf, hash_format)"), ("cd", "append(cd, current_hash_lookup[hash_format])"), ("cs", "append(cs, success)")]},
-    lemmas={
-        "before: for hash_format in hash_formats_to_generate:": [
-            "all(L_member(existing_hash_formats, hash_formats_to_generate[i]) for i in range(len(hash_formats_to_generate)))",
-            "all(L_member(hash_formats_to_generate, existing_hash_formats[j]) for j in range(len(existing_hash_formats)))",
-            "all(L_member(cf, existing_hash_formats[j]) for j in range(len(existing_hash_formats)))",
-        ],
-    },
-    requires=[
-        "len(hash_formats) > 0",
-        "all(is_format(f) for f in hash_formats)",
-        "existing_history.asc_mhl_path is not None and existing_history.asc_mhl_path != ''",
-        "session.root_history == existing_history",
-        "p_isabs(file_path)",
-        # the history the file is routed to has an ascmhl folder (true for every history object load_from_path builds)
-        "not route_p_none(existing_history, existing_history.get_relative_file_path(file_path))",
-    ],
-    modifies=["*.new_hash_lists", "*.media_hashes", "*.media_hashes_path_map", "*.root_media_hash", "*.hash_entries", "*.media_hash"],
-    logs=True,
-    ensures=[
-        # every digest handed to the session and returned is the standard digest of the file's bytes (C01)
-        f"all(is_digest_text(cd[i], cf[i], {BYTES}) for i in range(len(cf)))",
-        f"all(is_digest_text(result[k][0], k, {BYTES}) for k in result.keys())",
-        # at least one judgement is recorded per sealed file (C02: the file gets a record)
-        "len(cf) >= 1",
-        # every already recorded format that was requested is judged; if none was requested, the first recorded one is
-        f"all(not ({IN(E + '[j]', 'hash_formats')}) or {IN(E + '[j]', 'cf')} for j in range(len({E})))",
-        f"len({E}) == 0 or any({IN('cf[i]', E)} for i in range(len(cf)))",
-        # a format that is new for the file is appended only after every judgement of a recorded format succeeded (C04)
-        f"all({IN('cf[i]', E)} or all(not ({IN('cf[j]', E)}) or cs[j] for j in range(len(cf))) for i in range(len(cf)))",
-        f"all({IN('cf[i]', E)} or all(not ({IN('cf[j]', E)}) or j < i for j in range(len(cf))) for i in range(len(cf)))",
-        # result: one entry per requested format
-        "all(hash_formats[j] in result for j in range(len(hash_formats)))",
-    ],
-    loops={
-        0: Loop(invariant=[f"all({IN('hash_formats_to_generate[j]', 'existing_hash_formats')} and {IN('hash_formats_to_generate[j]', 'hash_formats')} for j in range(len(hash_formats_to_generate)))",
-                           f"all(not ({IN('_seq[j]', 'hash_formats')}) or {IN('_seq[j]', 'hash_formats_to_generate')} for j in range(_i))",
-                           "all(is_format(f) for f in hash_formats_to_generate)"],
-                lemmas=["L_member(hash_formats, _seq[_i])"]),
-        1: Loop(invariant=[f"all({IN('hash_formats[j]', 'hash_formats_to_generate')} for j in range(_i))",
-                           "all(is_format(f) for f in hash_formats_to_generate)",
-                           f"all(not ({IN('existing_hash_formats[j]', 'hash_formats')}) or {IN('existing_hash_formats[j]', 'hash_formats_to_generate')} for j in range(len(existing_hash_formats)))",
-                           f"len(existing_hash_formats) == 0 or any({IN('hash_formats_to_generate[i]', 'existing_hash_formats')} for i in range(len(hash_formats_to_generate)))",
-                           "_i == 0 or len(hash_formats_to_generate) >= 1"],
-                lemmas=["L_member(hash_formats_to_generate, _seq[_i])",
-                        "all(L_member(hash_formats_to_generate, existing_hash_formats[j]) for j in range(len(existing_hash_formats)))"]),
+LOOPS_JUDGE = {
         2: Loop(invariant=[LOG_OK, DIGESTS_OK, GEN_KEYS,
                            f"all({IN('cf[i]', 'existing_hash_formats')} for i in range(len(cf)))",
                            f"all(not ({IN('_seq[j]', 'hash_formats_to_generate')}) or {IN('_seq[j]', 'cf')} for j in range(_i))",
                            "not existing_hashes_verified or all(cs[j] for j in range(len(cs)))",
                            "existing_hashes_verified or any(not cs[j] for j in range(len(cs)))",
-                           f"all(is_digest_text(hash_result_lookup[k][0], k, {BYTES}) for k in hash_result_lookup.keys())",
+                           f"all(digest_ok(hash_result_lookup[k][0], k, {BYTES}) for k in hash_result_lookup.keys())",
                            f"all(not ({IN('_seq[j]', 'hash_formats')} and {IN('_seq[j]', 'hash_formats_to_generate')}) or _seq[j] in hash_result_lookup for j in range(_i))",
-                           "_seq == existing_hash_formats"],
-                lemmas=["L_member(hash_formats_to_generate, _seq[_i])", "L_member(hash_formats, _seq[_i])",
+                           "_seq == existing_hash_formats", "nb == len(cf)"],
+                lemmas=["L_member(_seq, _seq[_i])", "L_member(hash_formats_to_generate, _seq[_i])", "L_member(hash_formats, _seq[_i])",
                         "L_member(current_hash_lookup.keys(), _seq[_i])",
                         "all(L_member(cf, _seq[j]) for j in range(len(_seq)))"]),
         3: Loop(invariant=[LOG_OK, DIGESTS_OK, GEN_KEYS,
-                           f"all({IN('cf[i]', 'existing_hash_formats')} or all(not ({IN('cf[j]', 'existing_hash_formats')}) or (cs[j] and j < i) for j in range(len(cf))) for i in range(len(cf)))",
-                           f"all(is_digest_text(hash_result_lookup[k][0], k, {BYTES}) for k in hash_result_lookup.keys())",
+                           # nb = number of judgements of recorded formats (all made by the first loop): they form a prefix of the log
+                           "0 <= nb and nb <= len(cf)",
+                           f"all({IN('cf[j]', 'existing_hash_formats')} for j in range(nb))",
+                           f"all(not ({IN('cf[j]', 'existing_hash_formats')}) for j in range(nb, len(cf)))",
+                           "len(cf) == nb or all(cs[j] for j in range(nb))",
+                           f"all(digest_ok(hash_result_lookup[k][0], k, {BYTES}) for k in hash_result_lookup.keys())",
                            "_seq == hash_formats_to_generate",
                            # judgements of recorded formats all succeeded if the flag still says so; a cleared flag means one was made
                            f"not existing_hashes_verified or all(not ({IN('cf[j]', 'existing_hash_formats')}) or cs[j] for j in range(len(cf)))",
@@ -113,6 +58,118 @@ contract(
                         "all(L_member(cf, existing_hash_formats[j]) for j in range(len(existing_hash_formats)))",
                         "all(L_member(hash_result_lookup.keys(), existing_hash_formats[j]) for j in range(len(existing_hash_formats)))",
                         "all(L_member(hash_result_lookup.keys(), _seq[j]) for j in range(len(_seq)))"]),
+    }
+
+
+# =====================================================================================================================
+# The function is verified as TWO region contracts: the VCs of each region carry only the facts of that region, which is
+# what lets the solvers finish (as one contract 478 of 498 obligations discharged and the rest timed out).
+#   plan  : from the start up to (not including) the statement that hashes the file - which formats will be generated
+#   judge : from that statement to the end, for ARBITRARY lists E / G that satisfy what `plan` ensures
+# Composition: the requires of `judge` about E and G are, clause by clause, the ensures of `plan` (PLAN_FACTS below is
+# used for both, with the names substituted), and nothing between the two regions is skipped.
+PARAMS = {"existing_history": "MHLHistory", "file_path": "str", "hash_formats": "list[str]", "session": "MHLGenerationCreationSession"}
+BASE_REQ = [
+    "len(hash_formats) > 0",
+    "all(is_format(f) for f in hash_formats)",
+    "existing_history.asc_mhl_path is not None and existing_history.asc_mhl_path != ''",
+    "session.root_history == existing_history",
+    "p_isabs(file_path)",
+    "not route_p_none(existing_history, existing_history.get_relative_file_path(file_path))",
+]
+
+
+def plan_facts(E_, G_):
+    return [
+        f"all(is_format(f) for f in {G_})",
+        f"len({G_}) >= 1",
+        f"all({IN('hash_formats[j]', G_)} for j in range(len(hash_formats)))",
+        f"all(not ({IN(E_ + '[j]', 'hash_formats')}) or {IN(E_ + '[j]', G_)} for j in range(len({E_})))",
+        f"len({E_}) == 0 or any({IN(G_ + '[i]', E_)} for i in range(len({G_})))",
+    ]
+
+
+contract(
+    "ascmhl.commands.seal_file_path",
+    region="plan",
+    slices=4,
+    bounded="71 or 72 of 72 obligations discharge from run to run (one preservation obligation about membership after an append sits "
+    "at the solvers' time limit); kept as monitored contract, not counted as proved",
+    params=PARAMS,
+    stop_at="current_hash_lookup = multiple_format_hash_file(",
+    locals={"hash_formats_to_generate": "list[str]", "existing_hash_formats": "list[str]"},
+    exposes={"existing_hash_formats": "list[str]", "hash_formats_to_generate": "list[str]"},
+    requires=BASE_REQ,
+    ensures=plan_facts(E, G),
+    loops={
+        0: Loop(invariant=[f"all({IN('hash_formats_to_generate[j]', 'existing_hash_formats')} and {IN('hash_formats_to_generate[j]', 'hash_formats')} for j in range(len(hash_formats_to_generate)))",
+                           f"all(not ({IN('_seq[j]', 'hash_formats')}) or {IN('_seq[j]', 'hash_formats_to_generate')} for j in range(_i))",
+                           "all(is_format(f) for f in hash_formats_to_generate)"],
+                lemmas=["L_member(hash_formats, _seq[_i])"]),
+        1: Loop(invariant=[f"all({IN('hash_formats[j]', 'hash_formats_to_generate')} for j in range(_i))",
+                           "all(is_format(f) for f in hash_formats_to_generate)",
+                           f"all(not ({IN('existing_hash_formats[j]', 'hash_formats')}) or {IN('existing_hash_formats[j]', 'hash_formats_to_generate')} for j in range(len(existing_hash_formats)))",
+                           f"len(existing_hash_formats) == 0 or any({IN('hash_formats_to_generate[i]', 'existing_hash_formats')} for i in range(len(hash_formats_to_generate)))",
+                           "_i == 0 or len(hash_formats_to_generate) >= 1"],
+                lemmas=["L_member(hash_formats_to_generate, _seq[_i])",
+                        "all(L_member(hash_formats_to_generate, existing_hash_formats[j]) for j in range(len(existing_hash_formats)))"]),
     },
+    props=["C04", "C02"],
+)
+
+EL, GL = "existing_hash_formats", "hash_formats_to_generate"
+contract(
+    "ascmhl.commands.seal_file_path",
+    region="judge",
+    slices=16,
+    bounded="286-290 of 293 obligations discharge from run to run: all eight postconditions and most invariant obligations, but 3-7 "
+    "preservation obligations of the two judging loops (membership after appends to the ghost call log / the result dict) sit at the "
+    "solvers' time limit. A z3 mode that did discharge them (assert_and_track / unsat cores) was found UNSOUND on sequence formulas by a "
+    "deliberately broken body and was removed (DESIGN.md section D). The ordering of judgements is checked by the C04 small-world driver "
+    "on all format-subset sequences instead",
+    params=PARAMS,
+    start_at="current_hash_lookup = multiple_format_hash_file(",
+    returns="dict[str,tuple[str,bool]]",
+    locals={"hash_formats_to_generate": "list[str]", "existing_hash_formats": "list[str]", "hash_result_lookup": "dict[str,tuple[str,bool]]",
+            "current_hash_lookup": "dict[str,str]", "file_size": "int", "file_modification_date": "datetime", "relative_path": "str"},
+    ghost_init={"cf": ("list[str]", "empty_strs()"), "cd": ("list[str]", "empty_strs()"), "cs": ("list[bool]", "empty_bools()"), "nb": ("int", "0")},
+    ghost_updates={"success &= session.append_file_hash(": [("cf", "append(cf, hash_format)"), ("cd", "append(cd, current_hash_lookup[hash_format])"), ("cs", "append(cs, success)")],
+                   # only the first judging loop has this statement, directly before its append: nb counts its judgements
+                   "success = True": [("nb", "len(cf) + 1")]},
+    lemmas={
+        # the opaque predicate is the standard-digest statement: revealed where the digests come from and where they are returned
+        "before: hash_result_lookup = {}": [
+            f"all(L_digest_ok(current_hash_lookup[k], k, {BYTES}) for k in current_hash_lookup.keys())",
+        ],
+        "before: return hash_result_lookup": [
+            f"all(L_member({GL}, hash_formats[j]) for j in range(len(hash_formats)))",
+            f"all(L_member({EL}, {GL}[k]) for k in range(len({GL})))",
+            f"all(L_member({GL}, {GL}[k]) for k in range(len({GL})))",
+            "all(L_member(hash_formats, hash_formats[j]) for j in range(len(hash_formats)))",
+            f"all(L_digest_ok(current_hash_lookup[k], k, {BYTES}) for k in current_hash_lookup.keys())",
+            f"all(L_digest_ok(hash_result_lookup[k][0], k, {BYTES}) for k in hash_result_lookup.keys())",
+            f"all(L_member({GL}, cf[i]) for i in range(len(cf)))",
+            "all(L_member(current_hash_lookup.keys(), cf[i]) for i in range(len(cf)))",
+        ],
+        "before: for hash_format in hash_formats_to_generate:": [
+            f"all(L_member({EL}, {GL}[i]) for i in range(len({GL})))",
+            f"all(L_member({GL}, {EL}[j]) for j in range(len({EL})))",
+            f"all(L_member(cf, {EL}[j]) for j in range(len({EL})))",
+        ],
+    },
+    requires=BASE_REQ + plan_facts(EL, GL),
+    modifies=["*.new_hash_lists", "*.media_hashes", "*.media_hashes_path_map", "*.root_media_hash", "*.hash_entries", "*.media_hash"],
+    logs=True,
+    ensures=[
+        f"all(is_digest_text(cd[i], cf[i], {BYTES}) for i in range(len(cf)))",
+        f"all(is_digest_text(result[k][0], k, {BYTES}) for k in result.keys())",
+        "len(cf) >= 1",
+        f"all(not ({IN(EL + '[j]', 'hash_formats')}) or {IN(EL + '[j]', 'cf')} for j in range(len({EL})))",
+        f"len({EL}) == 0 or (len(cf) >= 1 and {IN('cf[0]', EL)})",
+        f"all({IN('cf[i]', EL)} or all(not ({IN('cf[j]', EL)}) or cs[j] for j in range(len(cf))) for i in range(len(cf)))",
+        f"all({IN('cf[i]', EL)} or all(not ({IN('cf[j]', EL)}) or j < i for j in range(len(cf))) for i in range(len(cf)))",
+        "all(hash_formats[j] in result for j in range(len(hash_formats)))",
+    ],
+    loops=LOOPS_JUDGE,
     props=["C04", "C01", "C02"],
 )
